@@ -118,7 +118,7 @@ theorem InvO.mark {p : Pool} (hi : Inv p) (h : InvO p) (o : Obj) (f r : Bool) : 
       show n ≤ p.last + 1; omega
     · rename_i rg hreg
       have hr : regL p = rg := regL_of_some hreg
-      generalize hp1 : (if (regLookup rg o.key).isNone = true then register p o else p) = p1
+      generalize hp1 : (if (regLookup rg o.key).isNone = true then registerNew p o else p) = p1
       have hc : p1.pf = p.pf ∧ p1.tr = p.tr := by rw [← hp1]; split <;> simp
       obtain ⟨hpf, htr⟩ := hc
       refine ⟨?_, ?_, ?_, ?_⟩
@@ -345,6 +345,8 @@ theorem InvAll.foldl {p : Pool} (h : InvAll p) (us : List Use) : InvAll (us.fold
 theorem InvAll.run (us : List Use) : InvAll (ClonePool.run us) := (InvAll.init 0).foldl us
 
 theorem rt_invAll (es : List REv) : ∀ p ∈ (GcRuntime.run es).pools, InvAll p :=
-  AllPools.run (P := InvAll) InvAll.init (fun _ u _ hi => hi.use u) es
+  AllPools.run (P := InvAll) InvAll.init (fun _ u _ hi => hi.use u)
+    (fun p o hi => ⟨Inv.congr (p := p) (q := clearFinalizer p o) rfl rfl rfl rfl rfl hi.inv,
+      ⟨hi.owed.markLe, hi.owed.markAsc, hi.owed.regKeys, hi.owed.owed⟩⟩) es
 
 end GoluaVerif.Proofs.C18
